@@ -64,7 +64,7 @@ def calls_programs(q, arglists, config=None, per=6, spell=None, multi=True, pre=
     # stands between the import and the calls
     if spell is not None and arglists:
         for name, imports, callee in spellings(q):
-            if "same_name" in name:
+            if "same_name" in name or "fallback" in name or "if_else" in name:
                 stmts = [layouts(callee, args)[0] for args in arglists[:per]]
                 out.append(P(list(pre) + list(imports) + stmts, config))
     return out
